@@ -127,10 +127,24 @@ func (r *tr) kop(mode string) *kop {
 	case "commit":
 		op.h = r.i()
 		r.names()
+	case "ccommit":
+		op.h = r.i()
+		r.names()
+		op.seed = r.z()
+		n := r.i()
+		for j := 0; j <= n; j++ {
+			r.names()
+			r.names()
+			r.names()
+			r.names()
+		}
 	case "clone":
 		op.h, op.h2 = r.i(), r.i()
 	case "rmtomb", "delhist":
 		op.h, op.before = r.i(), r.z()
+	case "vacuum":
+		op.h, op.before = r.i(), r.z()
+		r.names()
 	case "get":
 		op.h, op.key = r.i(), r.sval()
 	case "dump":
@@ -140,6 +154,9 @@ func (r *tr) kop(mode string) *kop {
 	case "trace":
 		op.h, op.key, op.after = r.i(), r.sval(), r.z()
 	case "list":
+	case "recover":
+		op.seed = r.z()
+		r.names()
 	default:
 		panic("replay: unknown kv op " + op.kind)
 	}
